@@ -7,7 +7,7 @@ Monitors: differential execution (V8 on the same binary) of
 The trap handler monitor in the driver counts trap() entries per call (":MULTI" marks more than one).
 """
 import os
-from vlib import env, e2e, gen, wasm, directed, diff, progs
+from vlib import env, e2e, gen, wasm, directed, diff, progs, exhaust
 from vlib.wasm import *
 
 LEVEL = 'exploration'
@@ -75,6 +75,10 @@ def main(chk):
         builds += [('clang-O2', 'clang', ['-O2'], []), ('clang-O0-nobuiltin', 'clang', ['-O0'], nb),
                    ('gcc-O0-gnu89', 'gcc', ['-O0', '-std=gnu89'], [])]
     env.pmap(lambda bl: run_directed(chk, w2c2, bl[0], bl[1], bl[2], bl[3], env.rng('c01-dir')), builds)
+
+    # in-module sweeps: every integer opcode over all 2^32 patterns of a 32-bit operand (thorough) / seeded lattices (quick)
+    exhaust.run_sweeps(chk, w2c2, 'C01', [e for e in exhaust.sweep_ops() if e[1] in gen.INT_OPS], builds,
+                       slow_builds=('clang-O0-nobuiltin', 'gcc-O0-gnu89'))
 
     # nested programs
     prof = gen.Profile(ops=set(gen.INT_OPS), types=[I32, I64], nan_canon=False, w_trace=0.3)
